@@ -769,7 +769,13 @@ func pointerStaysLocal(v ssa.Value, named *types.Named, visiting map[ssa.Value]b
 		switch x := r.(type) {
 		case *ssa.DebugRef:
 		case *ssa.Store:
-			if x.Addr != v || x.Val == v {
+			if x.Val == v {
+				// the pointer is put into a local variable: fine when that variable stays local too
+				slot, isSlot := x.Addr.(*ssa.Alloc)
+				if !isSlot || x.Addr == v || !slotStaysLocal(slot, named, visiting) {
+					return false
+				}
+			} else if x.Addr != v {
 				return false
 			}
 		case *ssa.UnOp:
@@ -793,23 +799,89 @@ func pointerStaysLocal(v ssa.Value, named *types.Named, visiting map[ssa.Value]b
 					}
 				}
 			}
-		case ssa.CallInstruction:
-			c := x.Common()
-			callee := c.StaticCallee()
-			if callee == nil || len(c.Args) == 0 || c.Args[0] != v || callee.Signature.Recv() == nil || len(callee.Params) == 0 || callee.Blocks == nil {
+		case *ssa.Return:
+			// handed back to the caller: fine when every caller (all of them statically known) keeps it local in turn
+			f := x.Parent()
+			if f == nil || f.Parent() != nil || (f.Object() != nil && f.Object().Exported()) || len(x.Results) != 1 || funcUsedAsValue(f) {
 				return false
 			}
-			for _, a := range c.Args[1:] {
-				if a == v {
+			sites := 0
+			for _, g := range freshFns {
+				for _, b := range g.Blocks {
+					for _, ins := range b.Instrs {
+						if ci, ok := ins.(ssa.CallInstruction); ok && ci.Common().StaticCallee() == f {
+							cv, isVal := ins.(*ssa.Call)
+							if !isVal || !pointerStaysLocal(cv, named, visiting) {
+								return false
+							}
+							sites++
+						}
+					}
+				}
+			}
+			if sites == 0 {
+				return false
+			}
+		case ssa.CallInstruction:
+			// passed to a function of the module (as receiver or as an ordinary argument): that function's parameter must stay
+			// local in the same sense
+			c := x.Common()
+			callee := c.StaticCallee()
+			if callee == nil || callee.Blocks == nil || callee.Pkg == nil || !strings.HasPrefix(callee.Pkg.Pkg.Path(), freshMod) || len(callee.Params) != len(c.Args) {
+				return false
+			}
+			for i, a := range c.Args {
+				if a == v && !pointerStaysLocal(callee.Params[i], named, visiting) {
 					return false
 				}
 			}
-			pt, isPtr := callee.Params[0].Type().(*types.Pointer)
-			if !isPtr || !types.Identical(pt.Elem(), named) {
+		default:
+			return false
+		}
+	}
+	return true
+}
+
+// slotStaysLocal: a local variable (or a captured one) that holds a *T: everything stored into it is a fresh pointer that stays
+// local, everything loaded from it stays local, and the variable itself is only captured by function literals that treat it
+// the same way
+func slotStaysLocal(slot ssa.Value, named *types.Named, visiting map[ssa.Value]bool) bool {
+	if visiting[slot] {
+		return true
+	}
+	visiting[slot] = true
+	refs := slot.Referrers()
+	if refs == nil {
+		return false
+	}
+	for _, r := range *refs {
+		switch x := r.(type) {
+		case *ssa.DebugRef:
+		case *ssa.Store:
+			if x.Addr != slot || x.Val == slot {
 				return false
 			}
-			if !pointerStaysLocal(callee.Params[0], named, visiting) {
+			if c, isConst := x.Val.(*ssa.Const); isConst && c.IsNil() {
+				continue
+			}
+			if !isFresh(x.Val) || !pointerStaysLocal(x.Val, named, visiting) {
 				return false
+			}
+		case *ssa.UnOp:
+			if x.Op != token.MUL || !pointerStaysLocal(x, named, visiting) {
+				return false
+			}
+		case *ssa.MakeClosure:
+			fn, ok := x.Fn.(*ssa.Function)
+			if !ok {
+				return false
+			}
+			for i, bnd := range x.Bindings {
+				if bnd == slot {
+					if i >= len(fn.FreeVars) || !slotStaysLocal(fn.FreeVars[i], named, visiting) {
+						return false
+					}
+				}
 			}
 		default:
 			return false
@@ -872,6 +944,58 @@ func receiverStaysLocal(prog *ssa.Program, m *ssa.Function, modFns []*ssa.Functi
 							}
 							recvArg = bound
 						}
+						if call, isCall := recvArg.(*ssa.Call); isCall {
+							// the result of a constructor: a fresh object that must stay local from here on
+							if !isFresh(call) || !pointerStaysLocal(call, named, map[ssa.Value]bool{}) {
+								return false
+							}
+							sites++
+							continue
+						}
+						if ld, isLoad := recvArg.(*ssa.UnOp); isLoad && ld.Op == token.MUL {
+							// read from a local (possibly captured) variable holding the pointer
+							switch ld.X.(type) {
+							case *ssa.Alloc, *ssa.FreeVar:
+								if !slotStaysLocal(ld.X, named, map[ssa.Value]bool{}) {
+									return false
+								}
+								// a captured variable: the variable of the enclosing function must stay local as well
+								cur := ld.X
+								okChain := true
+								for hops := 0; hops < 8 && okChain; hops++ {
+									fv, isFV := cur.(*ssa.FreeVar)
+									if !isFV || fv.Parent() == nil || fv.Parent().Parent() == nil {
+										break
+									}
+									var bound ssa.Value
+									for _, pb := range fv.Parent().Parent().Blocks {
+										for _, pi := range pb.Instrs {
+											if mc, ok := pi.(*ssa.MakeClosure); ok && mc.Fn == ssa.Value(fv.Parent()) {
+												for k, v2 := range fv.Parent().FreeVars {
+													if v2 == fv && k < len(mc.Bindings) {
+														bound = mc.Bindings[k]
+													}
+												}
+											}
+										}
+									}
+									if bound == nil {
+										okChain = false
+										break
+									}
+									if !slotStaysLocal(bound, named, map[ssa.Value]bool{}) {
+										okChain = false
+									}
+									cur = bound
+								}
+								if !okChain {
+									return false
+								}
+								sites++
+								continue
+							}
+							return false
+						}
 						alloc, isAlloc := recvArg.(*ssa.Alloc)
 						if !isAlloc {
 							if par, isPar := c.Args[0].(*ssa.Parameter); isPar && f.Signature.Recv() != nil && len(f.Params) > 0 && f.Params[0] == par {
@@ -916,6 +1040,236 @@ func receiverStaysLocalGuard(prog *ssa.Program, m *ssa.Function, modFns []*ssa.F
 	recvLocalBusy[m] = true
 	defer delete(recvLocalBusy, m)
 	return receiverStaysLocal(prog, m, modFns)
+}
+
+// ---- freshness (used by F6) ---------------------------------------------------------------------------------------------
+// isFresh(v): the pointer v can only point to memory allocated during the current request-handling activation: an
+// allocation; the result of a module function all of whose returns are fresh; a phi of fresh values; a parameter of an
+// unexported, never-passed-around function whose argument is fresh at every call site of the module; a load from a local
+// variable into which only fresh values are stored. Cycles are resolved optimistically (greatest fixed point): a loop that
+// only ever carries fresh pointers around stays fresh. Anything else — globals, loads from heap objects, results of
+// interface calls, parameters of exported functions — is not fresh.
+var freshMemo = map[ssa.Value]bool{}
+var freshBusy = map[ssa.Value]bool{}
+var freshFns []*ssa.Function // every function of the module
+var freshMod string
+
+func funcUsedAsValue(f *ssa.Function) bool {
+	for _, g := range freshFns {
+		for _, b := range g.Blocks {
+			for _, ins := range b.Instrs {
+				for _, op := range ins.Operands(nil) {
+					if op != nil && *op == ssa.Value(f) {
+						if ci, ok := ins.(ssa.CallInstruction); ok && ci.Common().Value == ssa.Value(f) {
+							continue
+						}
+						return true
+					}
+				}
+			}
+		}
+	}
+	return false
+}
+
+func isFresh(v ssa.Value) bool {
+	if r, ok := freshMemo[v]; ok {
+		return r
+	}
+	if freshBusy[v] {
+		return true
+	}
+	freshBusy[v] = true
+	r := isFresh1(v)
+	delete(freshBusy, v)
+	freshMemo[v] = r
+	return r
+}
+
+func returnsFresh(f *ssa.Function, idx int) bool {
+	if f == nil || f.Blocks == nil || f.Pkg == nil || !strings.HasPrefix(f.Pkg.Pkg.Path(), freshMod) {
+		return false
+	}
+	n := 0
+	for _, b := range f.Blocks {
+		if len(b.Instrs) == 0 {
+			continue
+		}
+		if ret, ok := b.Instrs[len(b.Instrs)-1].(*ssa.Return); ok {
+			if idx >= len(ret.Results) || !isFresh(ret.Results[idx]) {
+				return false
+			}
+			n++
+		}
+	}
+	return n > 0
+}
+
+func isFresh1(v ssa.Value) bool {
+	switch x := v.(type) {
+	case *ssa.Alloc:
+		if x.Heap {
+			return true
+		}
+		// the address of a local variable: fresh memory of this activation
+		return true
+	case *ssa.Const:
+		return x.IsNil() // a store through nil panics; it cannot reach anybody's memory
+	case *ssa.Call:
+		return returnsFresh(x.Call.StaticCallee(), 0)
+	case *ssa.Extract:
+		if c, ok := x.Tuple.(*ssa.Call); ok {
+			return returnsFresh(c.Call.StaticCallee(), x.Index)
+		}
+		return false
+	case *ssa.Phi:
+		for _, e := range x.Edges {
+			if !isFresh(e) {
+				return false
+			}
+		}
+		return true
+	case *ssa.FieldAddr:
+		return isFresh(x.X)
+	case *ssa.IndexAddr:
+		return isFresh(x.X)
+	case *ssa.ChangeType:
+		return isFresh(x.X)
+	case *ssa.MakeInterface:
+		return isFresh(x.X)
+	case *ssa.UnOp:
+		if x.Op != token.MUL {
+			return false
+		}
+		// a load: fresh only from a local variable slot into which only fresh pointers are ever stored
+		a, ok := x.X.(*ssa.Alloc)
+		if !ok || a.Referrers() == nil {
+			return false
+		}
+		stores := 0
+		for _, r := range *a.Referrers() {
+			switch y := r.(type) {
+			case *ssa.Store:
+				if y.Addr == ssa.Value(a) {
+					if !isFresh(y.Val) {
+						return false
+					}
+					stores++
+				} else {
+					return false // the slot's address is stored somewhere
+				}
+			case *ssa.UnOp, *ssa.DebugRef:
+			case *ssa.MakeClosure:
+				// captured: the literal could store anything into it; look at its stores through the free variable
+				fn, ok := y.Fn.(*ssa.Function)
+				if !ok {
+					return false
+				}
+				for i, bnd := range y.Bindings {
+					if bnd == ssa.Value(a) && i < len(fn.FreeVars) && fn.FreeVars[i].Referrers() != nil {
+						for _, fr := range *fn.FreeVars[i].Referrers() {
+							if st, ok := fr.(*ssa.Store); ok && st.Addr == ssa.Value(fn.FreeVars[i]) && !isFresh(st.Val) {
+								return false
+							}
+						}
+					}
+				}
+			default:
+				return false
+			}
+		}
+		return stores > 0
+	case *ssa.Parameter:
+		f := x.Parent()
+		if f == nil || f.Parent() != nil {
+			return false
+		}
+		if f.Object() != nil && f.Object().Exported() {
+			return false // callable from outside the module
+		}
+		if f.Signature.Recv() != nil {
+			if n, ok := f.Signature.Recv().Type().(*types.Pointer); ok {
+				if nn, ok := n.Elem().(*types.Named); ok && nn.Obj().Exported() {
+					return false
+				}
+			}
+		}
+		if funcUsedAsValue(f) {
+			return false
+		}
+		idx := -1
+		for i, p := range f.Params {
+			if p == x {
+				idx = i
+			}
+		}
+		if idx < 0 {
+			return false
+		}
+		sites := 0
+		for _, g := range freshFns {
+			for _, b := range g.Blocks {
+				for _, ins := range b.Instrs {
+					if ci, ok := ins.(ssa.CallInstruction); ok && ci.Common().StaticCallee() == f {
+						if idx >= len(ci.Common().Args) || !isFresh(ci.Common().Args[idx]) {
+							return false
+						}
+						sites++
+					}
+				}
+			}
+		}
+		return sites > 0
+	}
+	return false
+}
+
+// entryPoints: the exported functions / methods (of the module) from which f is reachable through static calls; f itself when
+// it is exported, or when nothing exported reaches it statically
+func entryPoints(f *ssa.Function, modFns []*ssa.Function) []*ssa.Function {
+	exported := func(g *ssa.Function) bool { return g.Object() != nil && g.Object().Exported() }
+	if exported(f) {
+		return []*ssa.Function{f}
+	}
+	callers := map[*ssa.Function][]*ssa.Function{}
+	for _, g := range modFns {
+		root := g
+		for root.Parent() != nil {
+			root = root.Parent()
+		}
+		for _, b := range g.Blocks {
+			for _, ins := range b.Instrs {
+				if ci, ok := ins.(ssa.CallInstruction); ok {
+					if c := ci.Common().StaticCallee(); c != nil {
+						callers[c] = append(callers[c], root)
+					}
+				}
+			}
+		}
+	}
+	seen := map[*ssa.Function]bool{f: true}
+	var out []*ssa.Function
+	work := []*ssa.Function{f}
+	for len(work) > 0 {
+		g := work[0]
+		work = work[1:]
+		for _, c := range callers[g] {
+			if seen[c] {
+				continue
+			}
+			seen[c] = true
+			if exported(c) {
+				out = append(out, c)
+			} else {
+				work = append(work, c)
+			}
+		}
+	}
+	if len(out) == 0 {
+		return []*ssa.Function{f}
+	}
+	sort.Slice(out, func(i, j int) bool { return out[i].String() < out[j].String() })
+	return out
 }
 
 func allFunctions(prog *ssa.Program, p *ssa.Package) []*ssa.Function {
@@ -1149,6 +1503,12 @@ end PSA.Generated
 
 	// ---- F6 / F8
 	var respStores, globalStores []string
+	freshMod = strings.TrimSuffix(mod, "/")
+	for _, sp := range ssaBy {
+		if strings.HasPrefix(sp.Pkg.Path(), freshMod) {
+			freshFns = append(freshFns, allFunctions(prog, sp)...)
+		}
+	}
 	for _, path := range []string{mod + "admission", mod + "cmd/webhook/server", mod + "api", mod + "policy", mod + "metrics"} {
 		p := ssaBy[path]
 		if p == nil {
@@ -1166,7 +1526,11 @@ end PSA.Generated
 					if fa, ok := st.Addr.(*ssa.FieldAddr); ok {
 						if pt, ok := fa.X.Type().Underlying().(*types.Pointer); ok && strings.HasSuffix(pt.Elem().String(), "admission/v1.AdmissionResponse") {
 							fld := pt.Elem().Underlying().(*types.Struct).Field(fa.Field).Name()
-							respStores = append(respStores, fmt.Sprintf("    (%s, %s, %s, %s)", leanStr(short), leanStr(f.Name()), leanStr(fld), leanStr(origin(fa.X, 0))))
+							o := origin(fa.X, 0)
+							if !strings.HasPrefix(o, "shared:") && !strings.HasPrefix(o, "global:") && isFresh(fa.X) {
+								o = "fresh:alloc" // whatever route the pointer took (constructors, helpers, phis), it was allocated for this request
+							}
+							respStores = append(respStores, fmt.Sprintf("    (%s, %s, %s, %s)", leanStr(short), leanStr(f.Name()), leanStr(fld), leanStr(o)))
 						}
 					}
 					if g, ok := st.Addr.(*ssa.Global); ok && !strings.HasPrefix(f.Name(), "init") {
@@ -1221,7 +1585,15 @@ end PSA.Generated
 				return o, false
 			}
 			add := func(what string) {
-				stateWrites = append(stateWrites, fmt.Sprintf("    (%s, %s, %s)", leanStr(short), leanStr(f.String()[strings.LastIndex(f.String(), "/")+1:]), leanStr(what)))
+				if recv != "" {
+					what = strings.ReplaceAll(what, "param:"+recv, "receiver")
+				}
+				// a write in an unexported helper is reported under the exported functions it is reachable from: what matters is
+				// on which entry points state is written, not how the code is cut into helpers
+				for _, e := range entryPoints(root, modFns) {
+					es := e.String()
+					stateWrites = append(stateWrites, fmt.Sprintf("    (%s, %s, %s)", leanStr(short), leanStr(es[strings.LastIndex(es, "/")+1:]), leanStr(what)))
+				}
 			}
 			isInit := strings.HasPrefix(root.Name(), "init")
 			for _, b := range f.Blocks {
